@@ -3,7 +3,22 @@ import copy
 from .. import shrinkers
 
 
+def _has_struct(d):
+    for name in d:
+        v = d[name]["val"]
+        if "v" in v or "l" in v or "ll" in v or ("d" in v and _has_struct(v["d"])):
+            return True
+    return False
+
+
 def shrink(plan):
+    # a dictionary without any observable is outside the generator's domain (load_json_dict refuses it by design)
+    for c in _shrink(plan):
+        if all(_has_struct(d) for d in c.get("dicts", [])):
+            yield c
+
+
+def _shrink(plan):
     yield from shrinkers.drop_pool_elements(plan, "items", keep=1)
     yield from shrinkers.drop_pool_elements(plan, "dicts", keep=1)
     for si, s in enumerate(plan.get("items", [])):
